@@ -111,7 +111,10 @@ func (i *interpreter) global(g *ssa.Global) *value {
 			i.forcing[g.Pkg] = true
 			savedSteps, savedBudget := i.run.steps, i.run.budget
 			i.run.budget = 1 << 40
+			// package initialisation happens before everything: not a thread's access
+			i.raceSuspend(+1)
 			call(i, nil, token.NoPos, initFn, nil)
+			i.raceSuspend(-1)
 			i.run.steps, i.run.budget = savedSteps, savedBudget
 			i.inited[g.Pkg] = true
 		case i.allowUninit(g) || i.hasInitValue(g):
@@ -331,6 +334,8 @@ func (p *Program) Run(fn *ssa.Function, intArgs []int, cfg RunConfig) (res *RunR
 		inited:  map[*ssa.Package]bool{},
 		abort:   make(chan struct{}),
 	}
+	i.gil.Lock()
+	defer i.gil.Unlock()
 	// when the run is over, unwind every goroutine still parked
 	defer i.abortOnce.Do(func() { close(i.abort) })
 	if cfg.Trace {
@@ -486,6 +491,8 @@ func (i *interpreter) spawn(fr *frame, instr *ssa.Go, fn value, args []value) {
 		panic(engineErrorf("more than 64 goroutines spawned (%s)", i.site(instr)))
 	}
 	go func() {
+		i.gil.Lock()
+		defer i.gil.Unlock()
 		defer func() {
 			r := recover()
 			if r == nil {
@@ -511,18 +518,24 @@ func (i *interpreter) aborted() {
 }
 
 func (i *interpreter) chanSend(ch chan value, v value) {
+	i.gil.Unlock()
 	select {
 	case ch <- v:
+		i.gil.Lock()
 	case <-i.abort:
+		i.gil.Lock()
 		i.aborted()
 	}
 }
 
 func (i *interpreter) chanRecv(ch chan value) (value, bool) {
+	i.gil.Unlock()
 	select {
 	case v, ok := <-ch:
+		i.gil.Lock()
 		return v, ok
 	case <-i.abort:
+		i.gil.Lock()
 		i.aborted()
 	}
 	return nil, false
